@@ -4,6 +4,7 @@ import JSight.TreeNested
 import JSight.TreeRebuild
 import JSight.SchemaEvents
 import JSight.EnumEvents
+import JSight.DocCorollaries
 /-!
 # C06 — Lexical events faithfully describe the scanned text
 
@@ -93,3 +94,39 @@ theorem C06_enum_events (pre ws0 post : List UInt8) (items : List Item)
   enum_events pre ws0 post items hpre hws0 hpost hv hnd
 
 end Props.C06
+
+/-! ## The lexemes of the json `Document` OBJECT (carry-over of `C06_events_of_tree` through the C11 bridge) -/
+namespace Props.C06
+section document
+open JsonScan DocCursor
+
+/-- for a valid JSON tree with layout (the hypotheses of `C06_events_of_tree`), both modes: the deliveries of `NextLexeme`
+on a fresh document are exactly the events the tree denotes, in order, each without error, then EOF; and after ANY history
+of `NextLexeme` / `Check` / `Len` calls a `NextLexeme` delivers the element of that sequence the cursor stands at -
+`cursorOf ops` (`C11_doc_cursor_after`: 0 at the start and after the first `Check` / first `Len`, +1 per `NextLexeme`) -/
+theorem C06_document_lexemes (allow : Bool) (v : JA) (hv : v.Valid) (ws0 ws1 : List Cls) (h0 : IsWs ws0) (h1 : IsWs ws1)
+    (bs : List UInt8) (hbs : bs.map classify = ws0 ++ (v.render ++ ws1)) :
+    scanAll bs allow ((evsAt ws0.length v).length + 1) = (evsAt ws0.length v).map .lex ++ [.eof] ∧
+    ∀ ops : List Op, cursorOf ops ≤ (evsAt ws0.length v).length →
+      (((Doc.new bs allow).run ops).2.step .next).1 =
+        .next (((evsAt ws0.length v).map NextRes.lex ++ [.eof])[cursorOf ops]?.getD .eof) :=
+  DocCorollaries.doc_lexemes bs allow _ (C06_events_of_tree allow v hv ws0 ws1 h0 h1 bs hbs)
+    (DocCorollaries.wn_noTop _ [] (evsAt_wellNested _ v))
+
+/-- non-vacuity: ` [1]` = `[32, 91, 49, 93]`: six events then EOF; after `NextLexeme, Check, NextLexeme` the cursor is 1 -/
+example :
+    scanAll [32, 91, 49, 93] false 7 =
+      [.lex ⟨.arrB, 1, 1⟩, .lex ⟨.itemB, 2, 2⟩, .lex ⟨.litB, 2, 2⟩, .lex ⟨.litE, 2, 2⟩, .lex ⟨.itemE, 2, 2⟩,
+       .lex ⟨.arrE, 1, 3⟩, .eof] ∧
+    (((Doc.new [32, 91, 49, 93] false).run [.next, .check, .next]).2.step .next).1 = .next (.lex ⟨.itemB, 2, 2⟩) := by
+  have hv : (JA.arr [] [([], .scalar [.d19], [])]).Valid := by
+    have n1 : IsScalar [.d19] := ⟨.d19, [], .d1, false, .d1, rfl, rfl, rfl, rfl⟩
+    simp [JA.Valid, ValidItems, IsWs, n1]
+  obtain ⟨a, b⟩ := C06_document_lexemes false (.arr [] [([], .scalar [.d19], [])]) hv [.sp] [] (by simp [IsWs, Cls.isWs])
+    (by simp [IsWs]) [32, 91, 49, 93] (by decide)
+  exact ⟨a, b [.next, .check, .next] (by decide)⟩
+
+end document
+end Props.C06
+
+#print axioms Props.C06.C06_document_lexemes
